@@ -74,6 +74,7 @@ func (h *fetchHooks) OnFetchRecordBuffered(r *kgo.Record) {
 	h.st.mu.Lock()
 	h.st.fbuf[r]++
 	h.st.mu.Unlock()
+	h.st.s.UserCode()
 }
 
 func (h *fetchHooks) OnFetchRecordUnbuffered(r *kgo.Record, polled bool) {
@@ -86,6 +87,7 @@ func (h *fetchHooks) OnFetchRecordUnbuffered(r *kgo.Record, polled bool) {
 		h.st.s.Violf("C14/fetch-unbuffered/never-buffered", "OnFetchRecordUnbuffered for %s/%d@%d that was never passed to OnFetchRecordBuffered", r.Topic, r.Partition, r.Offset)
 	}
 	h.st.mu.Unlock()
+	h.st.s.UserCode()
 }
 
 const selRegex = `^in-.*`
